@@ -2,6 +2,7 @@ import OmplModel.Model.PathOps
 import OmplModel.Model.PathOpsRepair
 import OmplModel.Model.PathOpsWhole
 import OmplModel.Model.PathOpsGeom
+import OmplModel.Model.PathOpsShortcutObj
 import OmplModel.Model.SpaceDist
 import OmplModel.Model.SpaceInterp
 import OmplModel.Driver.SpaceIO
@@ -22,6 +23,8 @@ Line-protocol driver of the C17 path post-processing model (header `pathops`).
   bgoal <obj> <attempts> <rangeRatio> <snap> <k> <u>*k cm …          (findBetterGoal, scripted draws, goals cycle)
   perturbs <obj> <step> <ms> <me> <snap> <kh> <h>*kh <ks> <state>*ks cm …   (perturbPath, scripted draws + scripted sampler)
   repair <attempts> <k> <sample>*k iv <m> (<state> <0/1>)*m cm …   -> r <2*originalValid + result> out …
+  pshorto <obj> <ms> <me> <rangeRatio> <snap> <k> <u>*k cm …   -> <result (tree)> | dbl <alongPath started at posTemp = pos0: double-counted segment>
+                                         (partialShortcutPath under an objective: Model/PathOpsShortcutObj.lean)
   pshort <ms> <me> <rangeRatio> <snap> <k> <u>*k cm …   -> <result (tree: checkMotion in path order, fix F170)> | old <code before fix F55> | sampling <code before fix F170>
 answers `r <ret> out <k> <state>*k` (`r -1` for the void routines), `idx-error` if the model's checked
 indexing fails.  `cm` is the checkMotion transcript recorded by the harness on the real code: the
@@ -147,6 +150,38 @@ def objOf (sp : Space Float) (name : String) : Option (Obj (St Float) Float) :=
     some { identity := 0.0, combine := fun a b => a + b, better := fun a b => a < b, motion := workMotion }
   | _ => none
 
+/-- harness `wregFraction`: the fraction of the motion whose (x, y) lies in the box [3.5, 6.5]^2 (Liang-Barsky, same operations in
+the same order as the C++) -/
+def wregFraction (ax ay bx byy : Float) : Float :=
+  let clip (a d : Float) (t : Float × Float) : Option (Float × Float) :=
+    if d == 0.0 then (if a < 3.5 || a > 6.5 then none else some t)
+    else
+      let u0 := (3.5 - a) / d
+      let u1 := (6.5 - a) / d
+      let (u0, u1) := if u0 > u1 then (u1, u0) else (u0, u1)
+      let t0 := if u0 > t.1 then u0 else t.1
+      let t1 := if u1 < t.2 then u1 else t.2
+      if t0 > t1 then none else some (t0, t1)
+  match clip ax (bx - ax) (0.0, 1.0) with
+  | none => 0.0
+  | some t =>
+    match clip ay (byy - ay) t with
+    | none => 0.0
+    | some (t0, t1) => t1 - t0
+
+/-- the EXACTLY ADDITIVE harness objectives: `lin` (StateCostIntegral over c = 0.25 + x, end-point trapezoid) and `wreg`
+(distance * (1 + 4 * fraction inside the region)) -/
+def objOf2 (sp : Space Float) (name : String) : Option (Obj (St Float) Float) :=
+  match name with
+  | "lin" => some { identity := 0.0, combine := fun a b => a + b, better := fun a b => a < b,
+                    motion := fun a b => 0.5 * dist sp a b * ((0.25 + (xy a).1) + (0.25 + (xy b).1)) }
+  | "wreg" => some { identity := 0.0, combine := fun a b => a + b, better := fun a b => a < b,
+                     motion := fun a b =>
+                       let (ax, ay) := xy a
+                       let (bx, byy) := xy b
+                       dist sp a b * (1.0 + 4.0 * wregFraction ax ay bx byy) }
+  | _ => objOf sp name
+
 def step (st : DSt) (ts : List String) : DSt × String :=
   match ts with
   | "env" :: rest =>
@@ -262,6 +297,19 @@ def step (st : DSt) (ts : List String) : DSt × String :=
             -- the code between the two fixes (checkMotion in sampling order)
             (st, showOrd ++ " | old " ++ show1 false ++ " | sampling " ++ show1 true)
           | _, _, _, _, _, _ => (st, "bad-op")
+        | "pshorto", obj :: ms :: me :: rr :: snap :: k :: us =>
+          match objOf2 sp obj, parseNat? ms, parseNat? me, parseFloatBits? rr, parseFloatBits? snap, parseNat? k,
+              us.mapM parseFloatBits? with
+          | some O, some ms, some me, some rr, some snap, some k, some us =>
+            if k ≠ us.length then (st, "bad-op") else
+            let usA := us.toArray
+            let E : PsEnvO (St Float) Float := { cm := cmq, dist := dist sp, interp := interp sp, O := O }
+            let show1 (start : AlongStart) : String :=
+              match partialShortcutPathObj E start (fun i => usA.getD i 0.0) ms me rr snap st.path with
+              | some (out, r) => "r " ++ retStr r ++ " " ++ showPath out
+              | none => "idx-error"
+            (st, show1 .afterPos0 ++ " | dbl " ++ show1 .atPos0)
+          | _, _, _, _, _, _, _ => (st, "bad-op")
         | "pg", meth :: r =>
           -- PathGeometric::reverse / prepend / append / keepAfter / keepBefore / getClosestIndex in lock-step
           let flt : Float → Float → Bool := fun a b => a < b
@@ -295,7 +343,7 @@ def step (st : DSt) (ts : List String) : DSt × String :=
             (st, "r -1 " ++ showPath (smoothBSpline E ms st.path))
           | _, _, _ => (st, "bad-op")
         | "bgoal", obj :: attempts :: rr :: snap :: k :: us =>
-          match objOf sp obj, parseNat? attempts, parseFloatBits? rr, parseFloatBits? snap, parseNat? k, us.mapM parseFloatBits? with
+          match objOf2 sp obj, parseNat? attempts, parseFloatBits? rr, parseFloatBits? snap, parseNat? k, us.mapM parseFloatBits? with
           | some O, some attempts, some rr, some snap, some k, some us =>
             if k ≠ us.length ∨ st.goals.isEmpty then (st, "bad-op") else
             let usA := us.toArray
@@ -314,7 +362,7 @@ def step (st : DSt) (ts : List String) : DSt × String :=
             | none => (st, "idx-error")
           | _, _, _, _, _, _ => (st, "bad-op")
         | "perturbs", obj :: step :: ms :: me :: snap :: kh :: rest2 =>
-          match objOf sp obj, parseFloatBits? step, parseNat? ms, parseNat? me, parseFloatBits? snap, parseNat? kh with
+          match objOf2 sp obj, parseFloatBits? step, parseNat? ms, parseNat? me, parseFloatBits? snap, parseNat? kh with
           | some O, some step, some ms, some me, some snap, some kh =>
             match (rest2.take kh).mapM parseFloatBits?, rest2.drop kh with
             | some hs, ks :: rest3 =>
